@@ -37,6 +37,8 @@ func TestFamily(t *testing.T) {
 		scs = consFamily(behs)
 	case "upgr":
 		scs = upgrFamily(behs)
+	case "hctx":
+		scs = hctxFamily(behs)
 	case "grace":
 		scs = graceFamily()
 	case "direct":
